@@ -548,6 +548,66 @@ func (f *Fam) checkSlashing(before, after *Snapshot, w []string, fail func(strin
 		return
 	}
 	forever := unixNs(posTypes.DoubleSignJailEndTime)
+	// C08: the downtime punishment happens at exactly the vote at which the window count first exceeds the allowance,
+	// later than start height + window, for an existing validator that is not jailed - and at no other vote.
+	// (Evaluated for addresses with one vote and no evidence in this block, from the signing state before the block.)
+	if w, okw := paramBig(before, "pos/SignedBlocksWindow"); okw && w.Sign() > 0 {
+		if frac, okf := paramBig(before, "pos/MinSignedPerWindow"); okf {
+			W := w.Int64()
+			// MinSignedPerWindow = round-half-even(frac * W)
+			num := new(big.Int).Mul(frac, w)
+			unit := new(big.Int).Exp(big.NewInt(10), big.NewInt(18), nil)
+			q, rem := new(big.Int).QuoRem(num, unit, new(big.Int))
+			twice := new(big.Int).Lsh(rem, 1)
+			if c := twice.Cmp(unit); c > 0 || (c == 0 && q.Bit(0) == 1) {
+				q.Add(q, big.NewInt(1))
+			}
+			maxMissed := W - q.Int64()
+			for a, votes := range missed {
+				si, ok := before.Sign[a]
+				if !ok || len(votes) != 1 || len(evs[a]) > 0 {
+					continue
+				}
+				missedNow := false
+				for _, sv := range strings.Split(m["v"], ",") {
+					if x := strings.Split(sv, ":"); x[0] == a {
+						missedNow = x[2] != "1"
+					}
+				}
+				idx := si.Offset % W
+				prev := before.Missed[a][idx]
+				cnt := si.Missed
+				if !prev && missedNow {
+					cnt++
+				} else if prev && !missedNow {
+					cnt--
+				}
+				vb, exists := before.Vals[a]
+				expect := f.height > si.Start+W && cnt > maxMissed && exists && !vb.Jailed
+				va, existsAfter := after.Vals[a]
+				observed := exists && !vb.Jailed && existsAfter && va.Jailed
+				f.extra["c08:punish-decisions-checked"]++
+				if expect {
+					f.extra["c08:punishments-expected"]++
+				}
+				if expect != observed {
+					fail("punish-iff", "C08:punish-iff", fmt.Sprintf("BeginBlock %d: %s (status %d) window count %d, allowance %d, start %d, window %d: punishment expected=%v, happened=%v",
+						f.height, a, vb.Status, cnt, maxMissed, si.Start, W, expect, observed))
+				} else if observed {
+					sa := after.Sign[a]
+					bits := 0
+					for _, b := range after.Missed[a] {
+						if b {
+							bits++
+						}
+					}
+					if sa.Missed != 0 || sa.Offset != 0 || bits != 0 {
+						fail("punish-resets", "C08:punish-does-not-reset", fmt.Sprintf("BeginBlock %d: after the downtime punishment of %s the counter is %d, the offset %d, %d missed bits remain", f.height, a, sa.Missed, sa.Offset, bits))
+					}
+				}
+			}
+		}
+	}
 	for a, v := range before.Vals {
 		if v.Status == 0 {
 			continue
